@@ -127,8 +127,14 @@ def run_property(prop, tier, seed):
 
     for r in vlib.pmap(do_trace, jobs, workers=min(vlib.NCPU, 14)):
         if not r["consumed"] and not r["died"]:
-            log(r.get("tail", ""))
-            raise vlib.ToolError("trace validation of %s did not complete (tooling or trace format problem)" % r["path"])
+            # TLC stopped before the end of the trace (an evaluation error on an event shape the spec does not
+            # anticipate).  Events rejected BEFORE that point stand on their own; without any, it is a tool error.
+            tags0 = rc.get("tags")
+            early = [m for m in r["mismatches"] if m[1] in reasons and (tags0 is None or m[2] in tags0)]
+            if not early:
+                log(r.get("tail", ""))
+                raise vlib.ToolError("trace validation of %s did not complete (tooling or trace format problem)" % r["path"])
+            cov.setdefault("traces_not_fully_consumed", []).append(os.path.basename(r["path"]))
         cov["states"] += r["states"]
         cov["transitions"] += r["transitions"]
         cov["events_validated"] += r["events"]
